@@ -216,7 +216,21 @@ func runCollector(r *rand.Rand, n int, outDir string, sum *emit.Summary) (terms 
 			continue
 		}
 		close(ch)
-		wg.Wait()
+		finished := make(chan struct{})
+		go func() { wg.Wait(); close(finished) }()
+		stuck := false
+		select {
+		case <-finished:
+		case <-time.After(5 * time.Second): // the collector took the last event and never came back
+			stuck = true
+		}
+		if stuck {
+			sum.ImplFailures = append(sum.ImplFailures, fmt.Sprintf("collector did not finish within 5s after its event channel was closed (ids=%v, %d events, observer=%v)", ids, len(es), c%2 == 1))
+			if len(sum.ImplFailures) > 3 {
+				break
+			}
+			continue
+		}
 		if c%2 == 1 && (notified != len(es) || early != 0) {
 			sum.ImplFailures = append(sum.ImplFailures, fmt.Sprintf("collector observer: %d events, %d notifications, %d of them before the event was recorded (ids=%v)", len(es), notified, early, ids))
 		}
